@@ -564,3 +564,22 @@ Definition c19_e2e_sb (c : cfg) (init : N) (hist : list round_obs) (sizes : list
 (** C03, the reported figures of a collection of [m] samples of size [s]
     ([SampleCollection::iter_count] is a u64 product): samples = m, iters = s*m. *)
 Definition c03_fig_sb (s m samples iters : N) : bool := (samples =? m) && (iters =? s * m).
+
+(** * The time origin and the overhead calibration
+
+    When [bench_loop_threaded] reaches the lines that read [initial_start] and
+    look up [timer.bench_overheads()], the clock reads [t0].  The lookup
+    calibrates the overheads on its first use in a process, which takes
+    [calib] ticks (0 when the result is cached); "min_time and max_time do not
+    consider this as benchmarking time" (doc of [Timer::bench_overheads]).
+    [origin_before_calib] (Generated/Consts.v, read from the source) says
+    whether the origin is read before the lookup. *)
+Definition origin_reading (before : bool) (t0 calib : N) : N := if before then t0 else t0 + calib.
+
+Definition bench_loop_cal (c : cfg) (t0 calib : N) (hist : list round_obs) : res outcome :=
+  bench_loop c (origin_reading origin_before_calib t0 calib) hist.
+
+(** The rule with the elapsed time measured "from just before the first
+    sample", i.e. from the clock after the calibration. *)
+Definition c04_cal_sb (c : cfg) (t0 calib : N) (hist : list round_obs) (o : seen) : bool :=
+  c04_sb c (t0 + calib) hist o.
